@@ -58,8 +58,9 @@ def run(tier):
     vf.graph_flow(v, 'RegTableMC.tla', 'RegTableMC.cfg' if quick else 'RegTableMCt.cfg', 'regtab', 'rtmc',
                   depth=3 if quick else 4, budget=40000 if quick else 800000, walks=200 if quick else 2000, walklen=3 if quick else 4,
                   nontrivial=lambda u, evl, post: u != post or not evl.split(' | ')[1].startswith('0'), heap='16g')
-    rnd = random.Random(vf.seed())
-    hs = list(histories(rnd, 40 if quick else 200, 300 if quick else 500, [U16, U32, U64, S16, S32, F32, F64, S64]))
+    hs = []
+    for rnd in vf.rounds(tier, 5):
+        hs += list(histories(rnd, 40 if quick else 200, 300 if quick else 500, [U16, U32, U64, S16, S32, F32, F64, S64]))
     vf.trace_flow(v, 'RegTableTrace.tla', 'RegTableTrace.cfg', 'regtab', hs, 'hist')
     v.cov['rule'] = ('E0/E1: complete bounded-depth state graph of RegTableMC.tla (4 tables, boundary operands, block lengths 1-2, one pending corruption), every edge replayed; '
                      'E2: random histories of 300-500 operations on generated tables. distinct_nontrivial = model transitions that change the state or are refusals.')
